@@ -79,7 +79,7 @@ def _chain_operands(tree, fn):
     return []
 
 
-@rule("C02.R1", floor=8)
+@rule("C02.R1", floor=6)
 def r1_sequencing_sound_combination(ctx):
     """_chain_py_ast hoists an earlier node into a temporary when a later sibling has dependencies;
     GeneratedPyAST.reduce emits each node after its own dependencies, in order; handlers that build
@@ -87,31 +87,10 @@ def r1_sequencing_sound_combination(ctx):
     all dependency statements before every child's value)."""
     tree = _gen(ctx)
     ch = ctx.fn(GEN, "_chain_py_ast")
-    txt = P.un(ch)
-    loops = [l for l in ast.walk(ch) if isinstance(l, ast.For)]
-    hoist = None
-    for l in loops:
-        for t in ast.walk(l):
-            if isinstance(t, ast.If) and any(isinstance(c, ast.Compare) and isinstance(c.ops[0], ast.Lt) for c in ast.walk(t.test)):
-                hoist = (l, t)
-    ok = hoist is not None
-    why = "" if ok else "_chain_py_ast concatenates every child's dependency statements and returns the bare nodes: a plain call in an earlier position is evaluated after the statements of a compound form in a later position"
-    if ok:
-        l, t = hoist
-        body_txt = " ".join(P.un(s) for s in t.body)
-        ok = "ast.Assign(" in body_txt and "value=n.node" in body_txt.replace(" ", "").replace("value=n.node", "value=n.node") and "ast.Name(" in body_txt
-        if not ok:
-            why = "the hoisting branch does not assign the earlier node to a temporary and substitute its name"
-        # deps of the child are emitted before its own hoisted value
-        idx_ext = next((i for i, s in enumerate(l.body) if "deps.extend(" in P.un(s)), None)
-        idx_if = l.body.index(t) if t in l.body else None
-        if ok and not (idx_ext is not None and idx_if is not None and idx_ext < idx_if):
-            ok, why = False, "a child's own dependency statements are not emitted before its hoisted value"
-        if ok and "max(" not in txt:
-            ok, why = False, "the index of the last sibling with dependencies is not computed"
-    ctx.ob("C02.R1", f"{GEN}::_chain_py_ast::hoists earlier nodes before later siblings' statements", GEN, ch.lineno, ok, why,
-           witness="[(+ (t 1) (if (t 2) (t 3) 0))] evaluated 2, 3, 1")
-    # ... and the combinator itself, evaluated (own interpreter, modelled AST nodes) on every sibling
+    # (a syntactic description of the hoisting loop stood here; it reported a maintainer's rewrite of
+    # the same loop -- guard clause, extracted helper -- and was dropped: what the combinator does is
+    # decided by evaluating it, below)
+    # the combinator itself, evaluated (own interpreter, modelled AST nodes) on every sibling
     # list of length 2 and 3 over {constant, call, bare name} values x {no statements, an expression statement,
     # a function definition, both}: the trace of what runs -- each sibling's statements, then its
     # value -- must be in source order.  A `def` statement counts like any other: executing it
